@@ -155,20 +155,26 @@ def check_pair(acc, calc, cat, oracle, birth, match, assert_oracle, prev):
     return res
 
 
+# meeting dates outside the 2015-2018 cycle: century years (2000 a leap year, 1900 and 2100 not), leap days, ends of years and of the Unix epoch range
+EXTRA_MEETINGS = [date(2000, 2, 29), date(2000, 3, 1), date(2000, 8, 31), date(2000, 9, 1), date(2020, 2, 29), date(2024, 2, 29), date(2024, 12, 31), date(2025, 1, 1),
+                  date(2100, 2, 28), date(2100, 3, 1), date(2100, 8, 31), date(2100, 12, 31), date(1999, 12, 31), date(2038, 1, 19), date(2038, 1, 20), date(1970, 1, 1),
+                  date(2019, 8, 31), date(2019, 9, 1), date(2030, 6, 15), date(2099, 10, 1)]
+
+
 def work(chunk):
     tier, lo, hi = chunk
     athlib = common.bind_repo()
     calc = athlib.calc_uka_age_group
     acc = Acc()
     for di in range(lo, hi):
-        match = D0 + timedelta(days=di)
+        match = D0 + timedelta(days=di) if di >= 0 else EXTRA_MEETINGS[-di - 1]
         tf_assert = (match.month, match.day) <= (9, 30)
         B = births_for(match, tier)
         prev_tf = prev_xc = None
         for birth in B:
             prev_tf = check_pair(acc, calc, 'TF', oracle_tf, birth, match, tf_assert, prev_tf)
             prev_xc = check_pair(acc, calc, 'XC', oracle_xc, birth, match, True, prev_xc)
-        if di % 183 == 0:
+        if di % 183 == 0 or di < 0:
             # ISO strings and ROAD dispatch on this meeting date
             for birth in (B if tier == 'thorough' else B[::3]):
                 for cat in ('TF', 'XC'):
@@ -178,6 +184,10 @@ def work(chunk):
                         b = calc(birth.isoformat(), match, cat)
                         if a != b:
                             acc.bad('%s:iso-string-differs-from-date' % cat, dict(birth=birth, match=match, category=cat), 'date -> %r, string -> %r' % (a, b))
+                        from datetime import datetime as _dt
+                        b3 = calc(_dt(birth.year, birth.month, birth.day), match, cat)      # a datetime at midnight is a date object too
+                        if a != b3:
+                            acc.bad('%s:datetime-birth-differs-from-date' % cat, dict(birth=birth, match=match, category=cat), 'date -> %r, datetime at midnight -> %r' % (a, b3))
                         if birth.year >= 1000:
                             b2 = calc(birth.strftime('%Y%m%d'), match, cat)          # ISO 8601 basic format
                             if a != b2:
@@ -201,7 +211,8 @@ def run(tier):
     common.bind_repo()
     rep = Report(PID, tier, 'exploration')
     chunks = [(tier, a, b) for a, b in common.split_range(0, NDAYS, 16 * 12 if tier == 'thorough' else 64)]
-    merge(rep, pmap(work, chunks), part='meeting dates 2015-01-01..2018-12-31 x birth dates (%s)' % (
+    chunks += [('quick', -k - 1, -k) for k in range(len(EXTRA_MEETINGS))]        # the boundary birth sets suffice here
+    merge(rep, pmap(work, chunks), part='meeting dates 2015-01-01..2018-12-31 and 20 dates in other years x birth dates (%s)' % (
         'every day of the preceding 110 years' if tier == 'thorough' else '+-2 days of every anniversary of the meeting day, 31 Aug/1 Sep, 31 Dec/1 Jan, 28 Feb/29 Feb/1 Mar in each of 111 years'))
     acc = Acc()
     calc = common.bind_repo().calc_uka_age_group
